@@ -788,10 +788,7 @@ func (fr *fwRun) stepInterest(st *fwStep) {
 		if isLocalhost(v.name) && !F.local {
 			fr.fail("C09", "C09:localhost-data-to-nonlocal", "cached /localhost Data sent to a non-local face", nil)
 		}
-		delete(e.in, st.Face) // consumed
-		if len(e.in) == 0 && len(e.out) == 0 {
-			delete(m.entries, key)
-		}
+		delete(e.in, st.Face) // consumed; an entry left without records disappears at the next maintenance tick
 		return
 	}
 
